@@ -497,7 +497,7 @@ class PEval:
             self.expr_effects(s.get('val'), env, guards, depth)
             if depth == 0 or True:
                 self.emit('return', '', (self.render(s.get('val'), env),) if s.get('val') is not None else (), guards, s.get('l', 0),
-                          {'value': self.ev(s.get('val'), env)}, depth)
+                          {'value': self.ev(s.get('val'), env), 'ast': s.get('val')}, depth)
             return {'return'}
         if k == 'GotoStmt':
             self.emit('goto', s.get('label'), (), guards, s.get('l', 0), depth=depth)
